@@ -85,6 +85,7 @@ func checkC13(r *Result) {
 	r.NotDecided = "conservation of the sums over all outcomes and claim orders; that no claim ever fails for lack of funds; the amounts of the outcome-dependent flows beyond the shapes above"
 	r.Assumptions = []string{"a failed transaction is rolled back, so ordering inside a handler matters only on success paths", "x/bank moves exactly the coins it is given"}
 	r.rule("ONCE-EXECUTE", "in ExecuteVote every effect is under !vote.Executed and every success path with an effect stores Executed=true")
+	r.rule("ONCE-PER-DISPUTE", "a round superseded by a new round leaves the execution queue, so only the final round is settled")
 	r.rule("ONCE-CLAIM", "ClaimReward pays only when the reward was not claimed and stores RewardClaimed=true before paying")
 	r.rule("ONCE-REFUND", "WithdrawFeeRefund pays only an existing payer record, only for a failed or executed dispute, and removes the record on every success path")
 	r.rule("EXHAUSTIVE", "switches over VoteResult cover every constant or fail closed")
@@ -412,6 +413,44 @@ func checkC13(r *Result) {
 			r.check(n >= 1 && bad == "", "ALL-ROUNDS", name+" # every round's VoteCountsByGroup is read", P.Pos(fn.Pos()), fmt.Sprintf("%d loops over PrevDisputeIds; %s", n, bad))
 		}
 	}
+	// ---- ONCE-PER-DISPUTE: a dispute is settled once, not once per round: the round that a new round supersedes
+	// must leave the execution queue, otherwise the begin blocker settles it with the old round's amounts as well
+	if cd := need("(x/dispute/keeper.Keeper).CloseDispute"); cd != nil {
+		ps := AnalyzePaths(cd, []Atom{{Name: "cleared", Event: func(in ssa.Instruction) (bool, int8) {
+			return storesConstToField(in, "x/dispute/types.Dispute.PendingExecution", "false"), T
+		}}, {Name: "closed", Event: func(in ssa.Instruction) (bool, int8) {
+			return storesConstToField(in, "x/dispute/types.Dispute.Open", "false"), T
+		}}})
+		n := 0
+		for _, cs := range P.CallSitesIn(cd) {
+			if cs.Desc() == "coll:x/dispute/keeper.Keeper.Disputes.Set" {
+				n++
+				bad := ps.Require(cs.Instr, func(v map[string]bool) bool { return v["cleared"] && v["closed"] })
+				r.check(len(bad) == 0, "ONCE-PER-DISPUTE", "(x/dispute/keeper.Keeper).CloseDispute # a superseded round is stored closed and out of the execution queue", P.Pos(cs.Pos()), fmt.Sprintf("valuations: %v", statesStr(ps, cs.Instr)))
+			}
+		}
+		r.check(n == 1, "ONCE-PER-DISPUTE", "(x/dispute/keeper.Keeper).CloseDispute # stores the round", P.Pos(cd.Pos()), fmt.Sprint(n))
+	}
+	if adr := need("(x/dispute/keeper.Keeper).AddDisputeRound"); adr != nil {
+		// the previous round is closed through CloseDispute, or by a store that clears both flags, before the new round is stored
+		ps := AnalyzePaths(adr, []Atom{
+			{Name: "closedPrev", Event: P.CallEvent(func(c *CallSite) bool { return c.Callee == "(x/dispute/keeper.Keeper).CloseDispute" }, T)},
+			{Name: "cleared", Event: func(in ssa.Instruction) (bool, int8) {
+				return storesConstToField(in, "x/dispute/types.Dispute.PendingExecution", "false"), T
+			}},
+			{Name: "closed", Event: func(in ssa.Instruction) (bool, int8) {
+				return storesConstToField(in, "x/dispute/types.Dispute.Open", "false"), T
+			}},
+		})
+		n := 0
+		for _, ret := range SuccessReturns(adr) {
+			n++
+			bad := ps.Require(ret, func(v map[string]bool) bool { return v["closedPrev"] || (v["cleared"] && v["closed"]) })
+			r.check(len(bad) == 0, "ONCE-PER-DISPUTE", "(x/dispute/keeper.Keeper).AddDisputeRound # the superseded round is closed and taken out of the execution queue", P.Pos(adr.Pos()), fmt.Sprintf("valuations at the success return: %v", statesStr(ps, ret)))
+		}
+		r.check(n > 0, "ONCE-PER-DISPUTE", "(x/dispute/keeper.Keeper).AddDisputeRound # has a success return", P.Pos(adr.Pos()), fmt.Sprint(n))
+	}
+	r.minCount("ONCE-PER-DISPUTE", 4)
 	r.minCount("ONCE-EXECUTE", 6)
 	r.minCount("PRO-RATA", 3)
 	r.minCount("EXHAUSTIVE", 2)
